@@ -81,6 +81,38 @@ func c17Journal(r *Run) {
 	if h.ref.N() == 0 {
 		return
 	}
+	// Stale-tail focus: the last transaction before the interrupted one leaves a
+	// journal with several segments behind (PERSIST keeps the file, TRUNCATE /
+	// DELETE do not), and the interrupted one is short and written without
+	// syncs, so that it ends in the middle of the old content.
+	staleFocus := h.jmode == ModePersist && t.Chance(1, 2)
+	r.Cfg["stale_focus"] = staleFocus
+	if staleFocus {
+		for h.ref.N() < 4 {
+			c.Mode = h.jmode
+			res := c.WriteTx(TxProgram{NewSize: h.ref.N() + 3, Outcome: OutCommit}, h.ref)
+			if res.Outcome != OutCommit {
+				r.Failf("c17.refused", "growing the database was refused at %s: %v", res.FailedAt, res.Errno)
+				return
+			}
+			h.ref = res.After
+		}
+		c.Mode = h.jmode
+		res := c.WriteTx(TxProgram{NewSize: h.ref.N(), Outcome: OutCommit, Modify: []uint32{1, 2, 3, 4}, SpillAt: []int{1 + t.Next(2), 3}}, h.ref)
+		if res.Outcome != OutCommit {
+			r.Failf("c17.refused", "multi-segment transaction refused at %s: %v", res.FailedAt, res.Errno)
+			return
+		}
+		h.ref = res.After
+		// ... and a short one after it, so that the newest transaction file (which
+		// a restart re-applies) does not happen to contain the pages of the old segments
+		res = c.WriteTx(TxProgram{NewSize: h.ref.N(), Outcome: OutCommit}, h.ref)
+		if res.Outcome != OutCommit {
+			r.Failf("c17.refused", "short transaction refused at %s: %v", res.FailedAt, res.Errno)
+			return
+		}
+		h.ref = res.After
+	}
 	db := h.db()
 	beforePos := db.Pos()
 	before := h.ref
@@ -112,6 +144,14 @@ func c17Journal(r *Run) {
 	}
 	if len(prog.Modify) == 0 {
 		prog.Modify = []uint32{1, 2}
+	}
+	if staleFocus {
+		// one record (page 1 only) or two: the old second header at the next
+		// sector boundary survives in the first case
+		prog = TxProgram{NewSize: h.ref.N(), Outcome: prog.Outcome, NoSync: t.Chance(2, 3)}
+		if t.Chance(1, 3) {
+			prog.Modify = []uint32{2}
+		}
 	}
 	c.Mode = h.jmode
 	res := c.WriteTx(prog, h.ref)
